@@ -5,6 +5,20 @@ OBJDUMP = shutil.which("objdump")
 LLVMMC = shutil.which("llvm-mc") or shutil.which("llvm-mc-14")
 
 
+def _run(cmd, **kw):
+    """a loaded machine can make even a tiny tool run miss its deadline: retry with longer ones before giving up"""
+    for t in (20, 60, 180):
+        try:
+            return subprocess.run(cmd, capture_output=True, text=True, timeout=t, **kw)
+        except subprocess.TimeoutExpired:
+            last = t
+    raise ToolTimeout("%s did not answer within %d s" % (os.path.basename(cmd[0]), last))
+
+
+class ToolTimeout(Exception):
+    pass
+
+
 def available():
     return bool(OBJDUMP and LLVMMC)
 
@@ -15,7 +29,7 @@ def objdump_first(data, mode64):
         f.write(data)
         name = f.name
     try:
-        out = subprocess.run([OBJDUMP, "-D", "-b", "binary", "-m", "i386", "-M", "x86-64" if mode64 else "i386", name], capture_output=True, text=True, timeout=20).stdout
+        out = _run([OBJDUMP, "-D", "-b", "binary", "-m", "i386", "-M", "x86-64" if mode64 else "i386", name]).stdout
     finally:
         os.unlink(name)
     lines = [l for l in out.splitlines() if re.match(r"^\s*[0-9a-f]+:\t", l)]
@@ -44,7 +58,7 @@ def objdump_first(data, mode64):
 def llvm_first(data, mode64):
     """-> (valid, length, text, rel or None)"""
     inp = " ".join("0x%02x" % b for b in data)
-    p = subprocess.run([LLVMMC, "--disassemble", "--triple=%s" % ("x86_64" if mode64 else "i386"), "--show-encoding"], input=inp, capture_output=True, text=True, timeout=20)
+    p = _run([LLVMMC, "--disassemble", "--triple=%s" % ("x86_64" if mode64 else "i386"), "--show-encoding"], input=inp)
     out = p.stdout
     err = p.stderr
     # a warning at column 1 means the first bytes do not decode
